@@ -144,6 +144,35 @@ def _is_future_import(import_from):
     return [n.value for n in from_names] == ['__future__']
 
 
+def _is_generator_expression_part(node, version):
+    """
+    Returns True if the node is evaluated within the scope of a generator
+    expression, i.e. it is part of one, but not of its first iterable (which
+    is evaluated in the enclosing scope). Before Python 3.11 other
+    comprehensions in between were not allowed to be asynchronous.
+    """
+    child = node
+    node = node.parent
+    while node is not None and node.type not in ('funcdef', 'lambdef', 'classdef', 'file_input'):
+        if node.type == 'sync_comp_for' and child is node.children[3]:
+            # An iterable; skip to the comprehension this `for` belongs to.
+            outer = node
+            while outer.parent.type in ('comp_for', 'sync_comp_for', 'comp_if'):
+                outer = outer.parent
+            if outer is node or outer.type == 'comp_for' and outer.children[-1] is node:
+                # The first iterable is not part of the comprehension's scope.
+                child, node = outer.parent, outer.parent.parent
+                continue
+        if node.type in ('testlist_comp', 'argument', 'dictorsetmaker') \
+                and node.children[-1].type in _COMP_FOR_TYPES:
+            if node.type == 'argument' or node.parent.children[0] == '(':
+                return True
+            if version < (3, 11):
+                return False
+        child, node = node, node.parent
+    return False
+
+
 def _remove_parens(atom):
     """
     Returns the inner part of an expression like `(foo)`. Also removes nested
@@ -558,7 +587,11 @@ class _AwaitOutsideAsync(SyntaxRule):
     message = "'await' outside async function"
 
     def is_issue(self, leaf):
-        return not self._normalizer.context.is_async_funcdef()
+        if self._normalizer.context.is_async_funcdef():
+            return False
+        # An await makes a generator expression asynchronous, which is fine.
+        return not (self._normalizer.version >= (3, 7)
+                    and _is_generator_expression_part(leaf, self._normalizer.version))
 
     def get_error_node(self, node):
         # Return the whole await statement.
@@ -1214,8 +1247,12 @@ class _CompForRule(_CheckAssignmentRule):
         if expr_list.type != 'expr_list':  # Already handled.
             self._check_assignment(expr_list)
 
-        return node.parent.children[0] == 'async' \
-            and not self._normalizer.context.is_async_funcdef()
+        if node.parent.children[0] == 'async' \
+                and not self._normalizer.context.is_async_funcdef():
+            # Asynchronous generator expressions are fine everywhere.
+            return not (self._normalizer.version >= (3, 7)
+                        and _is_generator_expression_part(node, self._normalizer.version))
+        return False
 
 
 @ErrorFinder.register_rule(type='expr_stmt')
